@@ -569,11 +569,22 @@ namespace
                             expect[s.r(i, k)] += t;
                             mag[s.r(i, k)] += std::fabs(t);
                         }
+                // "a non-negative source gives values no smaller than the local contribution":
+                // judged when every local contribution src * area is non-negative (a strongly
+                // obtuse mesh has nodes with a negative circumcentric area, C18; their
+                // contribution is then negative although the source is not)
                 bool nonneg = true;
-                for (double v : src)
-                    if (v < 0)
+                for (std::size_t i = 0; i < n; ++i)
+                    if (src[i] < 0 || src[i] * area[i] < 0)
                         nonneg = false;
                 long double total_src = 0, total_mag = 0, total_term = 0;
+                for (std::size_t i = 0; i < n; ++i)
+                {
+                    total_src += static_cast<long double>(src[i]) * area[i];
+                    total_mag += std::fabs(static_cast<long double>(src[i]) * area[i]);
+                    if (s.rcount[i] == 1 && s.r(i, 0) == i)
+                        total_term += acc[i];
+                }
                 for (std::size_t i = 0; i < n; ++i)
                 {
                     if (!(std::fabs(static_cast<long double>(acc[i]) - expect[i]) <= 64 * eps * mag[i] + 1e-300L))
@@ -587,10 +598,6 @@ namespace
                         f.push_back({ "below-local-contribution", "node " + node_s(i) });
                         break;
                     }
-                    total_src += static_cast<long double>(src[i]) * area[i];
-                    total_mag += std::fabs(static_cast<long double>(src[i]) * area[i]);
-                    if (s.rcount[i] == 1 && s.r(i, 0) == i)
-                        total_term += acc[i];
                 }
                 if (!(std::fabs(total_term - total_src) <= 1e-9L * (total_mag + 1e-300L) * static_cast<long double>(n)))
                     f.push_back({ "not-conserved", "sum over terminal nodes " + hexd(static_cast<double>(total_term))
